@@ -258,6 +258,15 @@ class External(object):
         self.dotted = dotted
 
 
+class Partial(object):
+    """functools.partial(f, *args, **kwargs)"""
+
+    def __init__(self, func, args, kwargs):
+        self.func = func
+        self.args = list(args)
+        self.kwargs = dict(kwargs)
+
+
 class BoundMethod(object):
     def __init__(self, recv, name):
         self.recv = recv
@@ -500,7 +509,7 @@ class Interp(object):
             return True
         if isinstance(v, Opaque):
             return self.decide(('opaque', v.text))
-        if isinstance(v, (FuncSym, FuncVal, Closure, ClassVal, DictSym, SelfObj, ExcVal, BoundMethod)):
+        if isinstance(v, (FuncSym, FuncVal, Closure, ClassVal, DictSym, SelfObj, ExcVal, BoundMethod, Partial)):
             return True
         if isinstance(v, PNode):
             return bool(v.children)
@@ -1098,6 +1107,10 @@ class Interp(object):
 
     def apply(self, f, args, kwargs, node, module, depth):
         sp = self.space
+        if isinstance(f, Partial):
+            kw = dict(f.kwargs)
+            kw.update(kwargs)
+            return self.apply(f.func, f.args + list(args), kw, node, module, depth)
         if isinstance(f, Closure):
             return self.call_closure(f, args, kwargs, depth + 1)
         if isinstance(f, BoundMethod):
@@ -1134,6 +1147,8 @@ class Interp(object):
                 return False
             if d == 'numpy.any' and len(args) == 1:
                 return self.truth(args[0]) if not isinstance(args[0], (list, tuple)) else any(self.truth(x) for x in args[0])
+            if d in ('functools.partial', 'partial') and args:
+                return Partial(args[0], args[1:], kwargs)
             if d in ('functools.reduce', 'reduce'):
                 return self._reduce(args, node, module, depth)
             if d.endswith('Error') or d.endswith('Exception'):
@@ -1232,6 +1247,8 @@ class Interp(object):
             return self.truth(args[0])
         if name in ('print',):
             return None
+        if name == '__import__' and len(args) == 1 and isinstance(args[0], str):
+            return External(args[0])
         if name == 'hasattr' and len(args) == 2:
             return Unknown(('hasattr', show(args[0]), show(args[1])))
         if name in ('set', 'sorted', 'dict', 'max', 'min', 'repr', 'type', 'id', 'callable', 'map', 'filter'):
